@@ -9,7 +9,7 @@ pub enum It {
     Rep(B, usize, i64),
     Sep(B, B, usize, i64, bool, bool),
     Enum(Box<It>),
-    CfgRep(Box<It>),
+    CfgRep(Box<It>, u8), // 0 = exactly(n), 1 = at_least(n), 2 = at_most(n)
 }
 
 #[derive(Clone, Debug)]
@@ -126,7 +126,9 @@ impl It {
                 a[6].as_bool().unwrap_or(false),
             ),
             "enum" => It::Enum(Box::new(It::from_json(&a[1])?)),
-            "cfgrep" => It::CfgRep(Box::new(It::from_json(&a[1])?)),
+            "cfgrep" => It::CfgRep(Box::new(It::from_json(&a[1])?), 0),
+            "cfgrepmin" => It::CfgRep(Box::new(It::from_json(&a[1])?), 1),
+            "cfgrepmax" => It::CfgRep(Box::new(It::from_json(&a[1])?), 2),
             _ => return Err(format!("unknown iterator op {op}")),
         })
     }
